@@ -167,15 +167,27 @@ def parse_check_output(out):
     return rows, summary
 
 
-def build_tree(root, spec):
+def build_tree(root, spec, variant=0):
     """spec: list of (language, [lengths]) -> {relative path: (language, lengths)}"""
     files = {}
     for i, (lang, lengths) in enumerate(spec):
         rel = f"src{i % 2}/file{i}{canon.EXT[lang]}"
         p = os.path.join(root, rel)
         os.makedirs(os.path.dirname(p), exist_ok=True)
-        with open(p, "w") as f:
-            f.write(canon.file_with_functions(lang, lengths, prefix=f"unit{i}x"))
+        text = canon.file_with_functions(lang, lengths, prefix=f"unit{i}x")
+        # physical shape of the file around the functions must not matter: no final newline, CRLF, blank/comment padding
+        v = (variant + i) % 6
+        lead = "#" if lang == "Python" else "//"
+        if v == 1:
+            text = text.rstrip("\n")
+        elif v == 2:
+            text = text.replace("\n", "\r\n")
+        elif v == 3:
+            text = f"{lead} header\n\n" + text + f"\n\n{lead} trailer"
+        elif v == 4:
+            text = "\n" * 3 + text.rstrip("\n")
+        with open(p, "w", newline="") as f:
+            f.write(text)
         files[rel] = (lang, lengths)
     return files
 
@@ -190,6 +202,10 @@ def expected_listing(files, order):
         for L, name in risky:
             rows.append((rel, L, "✖" if L > 60 else "⚠", name))
     return rows
+
+
+def spec_variant(spec, quiet):
+    return sum(sum(ls) + len(l) for l, ls in spec) + (3 if quiet else 0)
 
 
 def verify_lengths(ctx, root, files):
@@ -254,11 +270,13 @@ def judge_check(ctx, case, files, order, quiet, code, out, via):
             ctx.violation("summary_count", case, {"via": via, "summary": summary, "expected_files": len(order), "expected_functions": n_risky})
 
 
-def end_to_end(ctx, spec, quiet, label, key):
+def end_to_end(ctx, spec, quiet, label, key, variant=None):
     root = os.path.realpath(tempfile.mkdtemp(prefix="vf-c02-"))
     try:
-        files = build_tree(root, spec)
-        case = {"spec": [[l, list(ls)] for l, ls in spec], "quiet": quiet}
+        variant = spec_variant(spec, quiet) if variant is None else variant
+        files = build_tree(root, spec, variant)
+        case = {"spec": [[l, list(ls)] for l, ls in spec], "quiet": quiet, "variant": variant}
+        ctx.count(f"file_shape_variants.{variant % 6}")
         if not verify_lengths(ctx, root, files):
             return
         order = sorted(files, key=lambda r: int(re.search(r"file(\d+)", r).group(1)))
@@ -415,6 +433,11 @@ def run(shard, ctx):
             if i % shard["parts"] != shard["part"]:
                 continue
             quiet = (L % 2 == 0)
+            if L in BOUNDARY:
+                for v in range(6):  # every boundary length under every physical file shape
+                    end_to_end(ctx, [(lang, [L])], quiet, "single", [lang, L, quiet, v], variant=v)
+                    ctx.count("cases.single_length_files")
+                continue
             end_to_end(ctx, [(lang, [L])], quiet, "single", [lang, L, quiet])
             ctx.count("cases.single_length_files")
         # boundary combinations: 0, 1, 2 elements, spread over 1-2 files
@@ -460,7 +483,7 @@ def replay(case, ctx):
         if case.get("cli"):
             cli_case(ctx, spec)
         else:
-            end_to_end(ctx, spec, case.get("quiet", False), "replay", ["replay"])
+            end_to_end(ctx, spec, case.get("quiet", False), "replay", ["replay"], variant=case.get("variant"))
 
 
 LEVEL_TEXT = ("Every length from 1 to the bound is realised as a real source file in each language and pushed through the real check "
